@@ -97,6 +97,7 @@ type MonitorDecl struct {
 	Field    string // mutex field
 	Protects []string
 	Inv      *Clause
+	Rely     *Clause // interference: what other threads may have done to the protected state between two critical sections (two-state)
 	Props    []string
 	pkg      *types.Package
 	File     string
@@ -615,7 +616,20 @@ func (cs *ContractSet) parseLines(fname string, lines []struct {
 					md.Protects = append(md.Protects, pr)
 				}
 			}
-			md.Inv = mkClause(rest[j+11:], l.line, 1)
+			invText := rest[j+11:]
+			if r := strings.Index(invText, " interference "); r >= 0 {
+				// monitor ... invariant I interference R: the protected state is shared for real. Acquiring the mutex (and any
+				// channel operation while it is not held) first forgets the protected state, then assumes I and R, where R relates
+				// the state before (old) and after what the other threads did.
+				relyText := invText[r+14:]
+				tag := ""
+				if c := strings.Index(relyText, " // "); c >= 0 {
+					tag = relyText[c:]
+				}
+				invText = invText[:r] + tag
+				md.Rely = mkClause(relyText, l.line, 2)
+			}
+			md.Inv = mkClause(invText, l.line, 1)
 			if md.Inv != nil {
 				md.Props = md.Inv.Props
 				cs.Monitors = append(cs.Monitors, md)
